@@ -889,6 +889,28 @@ func c14Cycles() []c14Scenario {
 	} {
 		out = append(out, extra)
 	}
+	// groupings that use themselves (a freeconf extension) below a choice, a case, a list, an rpc
+	for name, body := range map[string]string{
+		"in-a-case":                 `grouping g { choice c { case a { uses g; leaf l { type string; } } } } container top { uses g; }`,
+		"in-a-shorthand-container":  `grouping g { choice c { container x { uses g; } leaf l { type string; } } } container top { uses g; }`,
+		"in-a-nested-choice":        `grouping g { choice c { case a { choice d { case b { uses g; } } leaf l { type string; } } } } container top { uses g; }`,
+		"in-a-list-in-a-case":       `grouping g { leaf n { type string; } choice c { case a { list kids { key n; uses g; } } } } container top { uses g; }`,
+		"two-groupings-via-choices": `grouping g { choice c { case a { uses h; } } } grouping h { choice d { case b { uses g; leaf l { type string; } } } } container top { uses g; }`,
+		"in-rpc-input-choice":       `grouping g { choice c { case a { uses g; leaf l { type string; } } } } rpc r { input { uses g; } }`,
+	} {
+		out = append(out, c14Scenario{"recursive-grouping/" + name, hdr + body + " }", nil})
+	}
+	// numeric arguments far outside what the statement takes
+	for _, n := range []string{"0", "1", "18", "19", "255", "65536", "2147483647", "2147483648", "99999999999999999999", "-1"} {
+		out = append(out,
+			c14Scenario{"fraction-digits-" + n, hdr + `leaf a { type decimal64 { fraction-digits ` + n + `; range "1..2"; } } }`, nil},
+			c14Scenario{"fraction-digits-" + n + "-bare-max", hdr + `leaf a { type decimal64 { fraction-digits ` + n + `; range "min..5 | max"; } } }`, nil},
+			c14Scenario{"min-elements-" + n, hdr + `leaf-list a { type string; min-elements ` + n + `; } }`, nil},
+			c14Scenario{"max-elements-" + n, hdr + `leaf-list a { type string; max-elements ` + n + `; } }`, nil},
+			c14Scenario{"enum-value-" + n, hdr + `leaf a { type enumeration { enum x { value ` + n + `; } enum y; } } }`, nil},
+			c14Scenario{"bit-position-" + n, hdr + `leaf a { type bits { bit x { position ` + n + `; } bit y; } } }`, nil},
+		)
+	}
 	// bounds of range and length that are no plain numbers, in every position of one and two alternatives
 	for _, tok := range []string{"NaN", "Inf", "+inf", "-Infinity", "1e400", "-1e400", "0x10", "1_0", "1e2", ".5", "5.", "--1", "+-1", "min", "max", "MAX", "", " "} {
 		for si, shape := range []string{"1..%s", "%s..5", "%s", "1..2 | 4..%s", "%s..2 | 4..5", "1..2 | %s", "%s | 4..5", "1..2|4..5|%s..9", "%s..%s"} {
